@@ -22,6 +22,7 @@ import dis
 import functools
 import gc
 import glob
+import inspect
 import itertools
 import json
 import os
@@ -208,6 +209,8 @@ def skedder_metas(name="verif", period=0.125, plan="main.flo"):
 
 
 _BUILDS = [0]
+# real.build_text re-runs a timed-out build with 12x the limit; the checks here do their own confirmation
+_NO_RETRY = {"retry": False} if "retry" in inspect.signature(real.build_text).parameters else {}
 
 
 def build(text, extra_files=None, limit=5.0, name=None, metas=False):
@@ -224,7 +227,7 @@ def build(text, extra_files=None, limit=5.0, name=None, metas=False):
     # otherwise run (and swallow a Watchdog) at arbitrary points inside it
     gc.disable()
     try:
-        res = real.build_text(text, extra_files=extra_files, limit=limit, name=name)
+        res = real.build_text(text, extra_files=extra_files, limit=limit, name=name, **_NO_RETRY)
     finally:
         building.console = old_console
         building.Builder = old_builder
@@ -668,7 +671,7 @@ def scaffold(line, slot=None):
 # token alphabet: every reserved word, representatives of every literal / name / path class, keywords
 ALPHA_WORDS = [
     "zz", "a", "f", "ax", "lg", "me", "mine", "main",
-    ".p.q", ".p.r", "p.q", "n.m.", ".n.", ".", "a..b", "_u", "9z",
+    ".p.q", ".p.r", "p.q", "n.m.", ".n.", ".", "a..b", "_u", "9z", "framer.me.frame", "framer.me.actor",
     "5", "0", "-1", "2.5", "1j", "0x1f", "1e400", "nan",
     '"s t"', "'u'", '""', "true", "none", "10N30.5", "3x4y",
     "frame", "framer", "actor", "root", "all", "any", "aux", "done", "updated", "changed", "running",
